@@ -93,14 +93,33 @@ func (c *Ctx) AddImported(from string, o *Obligation) {
 // methods reachable through an interface, functions nobody refers to), so a
 // construct of the tree is present in both programs; only helper-named keys can
 // vanish. A proof on either of two equivalent programs is a proof.
-func (c *Ctx) AdoptPasses(alt *Ctx) int {
+func (c *Ctx) AdoptPasses(alt *Ctx) int { return c.AdoptPassesKnown(alt, nil) }
+
+// AdoptPassesKnown is AdoptPasses where a failing obligation of the other run
+// that is a recorded known finding (and fails under the same key here as well)
+// does not count as an open obligation of its rule.
+func (c *Ctx) AdoptPassesKnown(alt *Ctx, known *KnownFile) int {
+	isKnown := map[string]bool{}
+	if known != nil {
+		mine := map[string]bool{}
+		for _, o := range c.Obs {
+			if o.st == Fail {
+				mine[o.FullKey()] = true
+			}
+		}
+		for _, k := range known.Findings {
+			if k.Property == c.Prop && mine[k.Key] {
+				isKnown[k.Key] = true
+			}
+		}
+	}
 	byKey := map[string]*Obligation{}
 	open := map[string]int{}
 	seen := map[string]int{}
 	for _, o := range alt.Obs {
 		byKey[o.FullKey()] = o
 		seen[o.Rule]++
-		if o.st != Pass {
+		if o.st != Pass && !(o.st == Fail && isKnown[o.FullKey()]) {
 			open[o.Rule]++
 		}
 	}
@@ -113,7 +132,10 @@ func (c *Ctx) AdoptPasses(alt *Ctx) int {
 		switch {
 		case ok && o2.st == Pass:
 			o.Detail = "discharged on the equivalent program obtained by expanding the new helper functions in place: " + o2.Detail + " [on the unexpanded program: " + o.Detail + "]"
-		case !ok && open[o.Rule] == 0 && seen[o.Rule] > 0 && o.Rule != "anchor" && o.Rule != "panic":
+		case !ok && o.Rule == "instances" && open["instances"] == 0 && open[o.Key] == 0 && seen[o.Key] > 0:
+			// the instance count of rule o.Key is met on the expanded program (Expect records nothing then)
+			o.Detail = "on the equivalent program obtained by expanding the new helper functions in place rule " + o.Key + " matches the expected number of sites and leaves nothing open [on the unexpanded program: " + o.Detail + "]"
+		case !ok && open[o.Rule] == 0 && seen[o.Rule] > 0 && o.Rule != "anchor" && o.Rule != "panic" && o.Rule != "instances":
 			o.Detail = "does not arise on the equivalent program obtained by expanding the new helper functions in place, where rule " + o.Rule + " leaves nothing open [on the unexpanded program: " + o.Detail + "]"
 		default:
 			continue
